@@ -86,7 +86,7 @@ func (p c03) Run(w *mon.Worker, idx int) mon.Result {
 	if doc.IsScalar() {
 		doc = ref.SeqV(doc, ref.IntV(1), ref.IntV(2))
 	}
-	fam := []string{"fresh", "union", "derived"}[idx%3]
+	fam := []string{"fresh", "union", "derived", "fresh", "union", "derived", "side"}[idx%7]
 	res := mon.Result{Tags: []string{"family:" + fam}}
 	cs := map[string]any{"doc": doc.JSON(), "family": fam}
 	res.Case = cs
@@ -237,6 +237,106 @@ func (p c03) Run(w *mon.Worker, idx int) mon.Result {
 		res.Detail = fmt.Sprintf("%d+%d location(s), both orders agree", len(t1), len(t2))
 		return res
 
+	case "side":
+		// a side computation over a container (bound to a variable, or stored next to it) before the delete:
+		// the delete still removes exactly the selection from the container it addresses, the other one is untouched
+		if doc.K != ref.Map {
+			doc = ref.MapV(ref.KV{K: "a", V: doc})
+			cs["doc"] = doc.JSON()
+		}
+		var conts [][]any
+		doc.Walk(nil, func(pth []any, n *ref.V) {
+			if (n.K == ref.Seq || n.K == ref.Map) && len(n.A)+len(n.M) >= 2 && len(pth) >= 1 && len(pth) <= 2 {
+				for _, k := range pth {
+					if s, isS := k.(string); isS && !identOK(s) {
+						return
+					}
+				}
+				conts = append(conts, append([]any{}, pth...))
+			}
+		})
+		if len(conts) == 0 {
+			return skip("no container")
+		}
+		sp := conts[r.IntN(len(conts))]
+		src, _ := doc.GetPath(sp)
+		pathTo := ref.PathExpr{}
+		for _, k := range sp {
+			switch kk := k.(type) {
+			case string:
+				pathTo.Steps = append(pathTo.Steps, ref.Step{Kind: "key", Key: kk})
+			case int:
+				pathTo.Steps = append(pathTo.Steps, ref.Step{Kind: "idx", Idx: kk})
+			}
+		}
+		SP := pathTo.String()
+		var f *ref.Expr
+		fname := "[.[]]"
+		if src.K == ref.Seq && r.IntN(3) > 0 {
+			d := c03Derives[r.IntN(len(c03Derives))]
+			f, fname = d.mk(r, src), d.name
+		} else {
+			f = &ref.Expr{Op: ref.OpCollect, L: &ref.Expr{Op: ref.OpSplat}}
+		}
+		dl, err := ref.Eval(f, []*ref.V{src.Copy()}, ref.Env{T: &ref.Trace{}})
+		if err != nil || len(dl) != 1 || dl[0].K != ref.Seq || len(dl[0].A) == 0 {
+			return skip("deriving function not defined here")
+		}
+		derived := dl[0]
+		res.Tags = append(res.Tags, "f:"+fname)
+		form := r.IntN(3)
+		if src.K == ref.Map && form < 2 {
+			form = 2
+		}
+		var expr string
+		want := doc.Copy()
+		var nt bool
+		switch form {
+		case 0, 1: // delete from the source after the side computation
+			selStr, ts, ok := c03SeqSelection(r, src)
+			if !ok {
+				return skip("selection not defined")
+			}
+			if form == 0 {
+				expr = fmt.Sprintf("(%s | %s | length) as $n | del(%s | %s)", SP, f.String(), SP, selStr)
+			} else {
+				expr = fmt.Sprintf(".zz_side = (%s | %s) | del(%s | %s)", SP, f.String(), SP, selStr)
+				_ = ref.SetPath(want, []any{"zz_side"}, derived)
+			}
+			var full [][]any
+			for _, t := range ts {
+				full = append(full, append(append([]any{}, sp...), t.Path...))
+			}
+			want = ref.DeletePaths(want, full)
+			nt = nontrivial(src, ts)
+		default: // delete from the derived copy: the source keeps its entries and its keys
+			selStr, ts, ok := c03SeqSelection(r, derived)
+			if !ok {
+				return skip("selection not defined")
+			}
+			expr = fmt.Sprintf(".zz_side = (%s | %s) | del(.zz_side | %s)", SP, f.String(), selStr)
+			_ = ref.SetPath(want, []any{"zz_side"}, derived)
+			var full [][]any
+			for _, t := range ts {
+				full = append(full, append([]any{"zz_side"}, t.Path...))
+			}
+			want = ref.DeletePaths(want, full)
+			nt = nontrivial(derived, ts)
+		}
+		res.Tags = append(res.Tags, fmt.Sprintf("side_form:%d", form))
+		cs["expr"] = expr
+		res.Sig = fmt.Sprintf("side|%d|%s|%x", form, fname, doc.ShapeHash())
+		got, _, yerr := evalDoc(expr, doc)
+		res.Evals++
+		if yerr != nil {
+			return fail("`%s` failed: %v", expr, yerr)
+		}
+		if got == nil || !ref.EqualNum(got, want) {
+			return fail("`%s`\n input    %s\n expected %s\n observed %s", expr, doc, want, got)
+		}
+		res.Verdict, res.Nontrivial, res.Detail = mon.Held, nt, "side computation does not disturb the delete"
+		return res
+
 	case "derived":
 		// find a sequence in the document
 		var seqs [][]any
@@ -325,6 +425,34 @@ func (p c03) Run(w *mon.Worker, idx int) mon.Result {
 		return res
 	}
 	return skip("?")
+}
+
+// c03SeqSelection picks a selection inside one sequence: an index, an index from the end, two indices, or
+// the elements (not) equal to one of its scalars. The string is relative to the sequence (`.[1]`, `.[] | select(..)`).
+func c03SeqSelection(r *rand.Rand, seq *ref.V) (string, []ref.Target, bool) {
+	n := len(seq.A)
+	if n == 0 {
+		return "", nil, false
+	}
+	var pe ref.PathExpr
+	switch r.IntN(5) {
+	case 0:
+		pe = ref.PathExpr{Steps: []ref.Step{{Kind: "idx", Idx: r.IntN(n)}}}
+	case 1:
+		pe = ref.PathExpr{Steps: []ref.Step{{Kind: "idx", Idx: -1 - r.IntN(n)}}}
+	case 2:
+		i, j := r.IntN(n), r.IntN(n)
+		return fmt.Sprintf(".[%d, %d]", i, j), []ref.Target{{Path: []any{i}}, {Path: []any{j}}}, true
+	case 3:
+		pe = ref.PathExpr{Steps: []ref.Step{{Kind: "splat"}}, Pred: ref.Bin("==", ref.Self(), ref.Lit(pickScalar(r, seq)))}
+	default:
+		pe = ref.PathExpr{Steps: []ref.Step{{Kind: "splat"}}, Pred: ref.Bin("!=", ref.Self(), ref.Lit(pickScalar(r, seq)))}
+	}
+	ts, err := ref.Resolve(seq, pe, false)
+	if err != nil {
+		return "", nil, false
+	}
+	return pe.String(), ts, true
 }
 
 func identOK(s string) bool {
